@@ -150,7 +150,7 @@ def run(ctx):
     # once the destination has been opened, a panic is a non-zero exit with the destination already changed - even the status
     # line printed after the last write. Closed ledger over main's own sites behind the open and over every local function called there.
     from ..panics import Ledger, outer_macro
-    ctx.rule("C08.R5", "closed panic ledger from the opening of the destination to the exit", floor=1)
+    ctx.rule("C08.R5", "closed panic ledger from the opening of the destination to the exit", floor=0)
     ctx.need(opens, "the site that opens the destination")
     after = set()
     for ob, oc in opens:
